@@ -1,18 +1,22 @@
 from check import run_diff_property
 
 CFG = dict(
-    streams=[('metrics', 40, 400)],
-    oracle_ops={'metrics'},
+    streams=[('metrics', 40, 400), ('shutdown', 12, 200)],
+    oracle_ops={'metrics', 'shutdown'},
+    ops_filter={'metrics', 'shutdown'},   # (not shutdown2 / binsig)
+    project={'shutdown': lambda l: ' '.join(t for t in l.split(' ') if t.startswith('counted='))},   # (the rest is C17's)
     rule=("batches of 1..24 concurrent connections against the real stack (root-package wiring, real registry), each of kind "
           "h2 / http/1.1 / no ALPN / plain HTTP on the TLS port / random garbage / ClientHello cut at a random offset / silent "
           "stall until the handshake timeout / abort right after the handshake (h1, h2) / TLS 1.0-1.1 client; Gather() after "
-          "every accepted connection was closed, compared with the multiset the property demands. non-trivial = batch with >= 2 kinds"),
+          "every accepted connection was closed, compared with the multiset the property demands; a third of the batches also sample "
+          "the counter while 1-3 served connections are still open (counted when they END); plus the shutdown scenarios of C17 "
+          "(connections attempted while the server drains are refused AND counted). non-trivial = batch with >= 2 kinds"),
     assumptions=[
         "Prometheus counters are commutative increments (modelled as a multiset of labels)",
         "a connection 'ends' when serveConn returns; the harness waits until the proxy closed every accepted connection",
         "panics inside serveConn are C10's subject",
     ],
-    nontrivial=lambda o, i: ',' in o,
+    nontrivial=lambda o, i: ',' in o or o.startswith('shutdown'),
 )
 
 
